@@ -414,15 +414,30 @@ Definition theme_set : prog :=
   (If (CAbsent (pth "a:schemeClr"))
      (remove_all colour_tags (Seq (SAdd (pth "a:schemeClr") []) (set_val "a:schemeClr" A_CT_SchemeColor__val)))
      (set_val "a:schemeClr" A_CT_SchemeColor__val)).
-(** the colour object is fixed by which choice child exists; only srgbClr, schemeClr and
-    no colour are modelled (other colour kinds give the base-class answers) *)
+(** the colour object is fixed by which choice child exists: eg_colorChoice is the first member found, looked for in
+    the order of the declaration (scrgbClr, srgbClr, hslClr, sysClr, schemeClr, prstClr); a schema-valid element
+    has at most one.  Only _SRgbColor has .rgb, only _SchemeColor a theme colour of its own (the other kinds answer
+    NOT_THEME_COLOR); without a colour both raise AttributeError. *)
+Fixpoint first_colour (tags : list lit) (none : gexp) (k : lit -> gexp) : gexp :=
+  match tags with
+  | [] => none
+  | t :: r => GIfAbsent (pth t) (first_colour r none k) (k t)
+  end.
+Fixpoint first_colour_prog (tags : list lit) (none : prog) (k : lit -> prog) : prog :=
+  match tags with
+  | [] => none
+  | t :: r => If (CAbsent (pth t)) (first_colour_prog r none k) (k t)
+  end.
 Definition rgb_get : gexp :=
-  GIfAbsent (pth "a:srgbClr") (GConst no_attr)
-    (GAttr (pth "a:srgbClr") (ad_attr A_CT_SRgbColor__val) (ad_codec A_CT_SRgbColor__val) (ad_kind A_CT_SRgbColor__val)).
+  first_colour colour_tags (GConst no_attr)
+    (fun t => if leqb t "a:srgbClr"
+              then GAttr (pth "a:srgbClr") (ad_attr A_CT_SRgbColor__val) (ad_codec A_CT_SRgbColor__val) (ad_kind A_CT_SRgbColor__val)
+              else GConst no_attr).
 Definition theme_get : gexp :=
-  GIfAbsent (pth "a:schemeClr")
-    (GIfAbsent (pth "a:srgbClr") (GConst no_attr) (GConst (Ok (PInt 0))))
-    (GAttr (pth "a:schemeClr") (ad_attr A_CT_SchemeColor__val) (ad_codec A_CT_SchemeColor__val) (ad_kind A_CT_SchemeColor__val)).
+  first_colour colour_tags (GConst no_attr)
+    (fun t => if leqb t "a:schemeClr"
+              then GAttr (pth "a:schemeClr") (ad_attr A_CT_SchemeColor__val) (ad_codec A_CT_SchemeColor__val) (ad_kind A_CT_SchemeColor__val)
+              else GConst (Ok (PInt 0))).
 
 (** brightness: validation by comparisons (TypeError for non-numbers), then tint / shade /
     clear on the colour element *)
@@ -432,10 +447,7 @@ Definition lum_get (x : lit) : gexp :=
        (GMap (fun v => py_sub v (PFloat (Fin 1 0)))
           (GAttr (pth (sub x "a:lumMod")) (ad_attr A_CT_Percentage__val) (ad_codec A_CT_Percentage__val) (ad_kind A_CT_Percentage__val))))
     (GAttr (pth (sub x "a:lumOff")) (ad_attr A_CT_Percentage__val) (ad_codec A_CT_Percentage__val) (ad_kind A_CT_Percentage__val)).
-Definition brightness_get : gexp :=
-  GIfAbsent (pth "a:srgbClr")
-    (GIfAbsent (pth "a:schemeClr") (GConst no_attr) (lum_get "a:schemeClr"))
-    (lum_get "a:srgbClr").
+Definition brightness_get : gexp := first_colour colour_tags (GConst no_attr) lum_get.
 Definition pre_brightness_range (v : aval) : res aval :=
   match py_lt (av_val v) (PFloat (Fin (-1) 0)) with
   | Err e => Err e
@@ -475,10 +487,7 @@ Definition brightness_on (x : lit) : prog :=
          (lum_clear x (Seq (SWith one_minus_abs chk_pct) (Seq (SAdd (pth (sub x "a:lumMod")) []) (Seq (SWith one_minus_abs (set_pct x "a:lumMod")) Done))))
          (lum_clear x Done)).
 Definition brightness_set : prog :=
-  Seq (SMap pre_brightness_range)
-    (If (CAbsent (pth "a:srgbClr"))
-        (If (CAbsent (pth "a:schemeClr")) (Raise ValueErr) (brightness_on "a:schemeClr"))
-        (brightness_on "a:srgbClr")).
+  Seq (SMap pre_brightness_range) (first_colour_prog colour_tags (Raise ValueErr) brightness_on).
 
 (** the typed colour objects (anchor: the a:srgbClr / a:schemeClr element itself) *)
 Definition pre_str (v : aval) : res aval :=
@@ -651,14 +660,35 @@ Definition ticklabel_entries : list entry :=
     mk "TickLabels" "offset" "valAx" (GConst no_attr) (Raise ValueErr) ].
 
 Definition right_pos : pyval := member E_XL_LEGEND_POSITION "r".
+(** Legend.horz_offset (chart/legend.py, oxml/chart/legend.py, oxml/chart/shared.py):
+      XsdDouble.to_xml(offset); layout = get_or_add_layout()
+      if offset == 0.0: layout._remove_manualLayout(); return
+      manualLayout = layout.get_or_add_manualLayout()
+      manualLayout.get_or_add_xMode().val = ST_LayoutMode.FACTOR   (the attribute default: the attribute is deleted)
+      manualLayout.get_or_add_x().val = offset
+    and the reader answers 0.0 unless c:layout, c:manualLayout, c:x and c:xMode exist and c:xMode reads factor.
+    The state space includes every other mode a producer may have written (c:xMode val=edge). *)
+Definition f_zero : pyval := PFloat (Fin 0 0).
+Definition mode_factor : pyval := PStr (s2l "factor").
+Definition layout_ch : list level := [lv "c:layout" (LEnsure []) (Ok f_zero)].
+Definition manual_layout : lit := "c:layout/c:manualLayout".
+Definition ho_box : path := pth manual_layout.
+Definition ho_m : path := pth (sub manual_layout "c:xMode").
+Definition ho_x : path := pth (sub manual_layout "c:x").
+Definition horz_offset_get : gexp :=
+  moded_gexp layout_ch ho_box ho_m ho_x (Ok f_zero) A_CT_LayoutMode__val mode_factor A_CT_Double__val.
+Definition horz_offset_set : prog :=
+  moded_prog layout_ch ho_box ho_m ho_x (CEq f_zero) A_CT_LayoutMode__val mode_factor A_CT_Double__val.
 Definition legend_entries : list entry :=
   [ ensure_val "Legend" "position" "" pre_id post_id [] "c:legendPos" (Ok right_pos) A_CT_LegendPos__val A_CT_LegendPos__val;
     mk "Legend" "include_in_layout" ""
        (child_gexp post_id [] (pth "c:overlay") (Ok (PBool true)) A_CT_Boolean_Explicit___val)
-       (ensure_or_remove_prog pre_id [] (pth "c:overlay") [] CNone (explicit_decl A_CT_Boolean_Explicit___val)) ].
+       (ensure_or_remove_prog pre_id [] (pth "c:overlay") [] CNone (explicit_decl A_CT_Boolean_Explicit___val));
+    mk "Legend" "horz_offset" "" horz_offset_get horz_offset_set ].
 
+(** DataLabels.show_*: the reader answers False without the child (a new child is written with val=0, then assigned) *)
 Definition show_flag (name c : lit) : entry :=
-  ensure_val "DataLabels" name "" pre_id post_id [] c (Ok (PBool true)) (explicit_decl A_CT_Boolean_Explicit___val) A_CT_Boolean_Explicit___val.
+  ensure_val "DataLabels" name "" pre_id post_id [] c (Ok (PBool false)) (explicit_decl A_CT_Boolean_Explicit___val) A_CT_Boolean_Explicit___val.
 Definition dlbls_entries : list entry :=
   numfmt_entries "DataLabels" true ++
   [ mk "DataLabels" "position" "" (child_gexp post_id [] (pth "c:dLblPos") ok_none A_CT_DLblPos__val)
